@@ -224,6 +224,9 @@ func (o *LogDirReader) loopWithError(ctx context.Context) error {
 
 			if done.filePath == mainLogPath {
 				mainLog.setOffset(done.numBytesRead)
+				// Remember how much of the file has been seen, so that a
+				// truncation before the first write event is detected.
+				mainLog.lastSz = done.numBytesRead
 			}
 
 			if initFileIndex > len(o.initFileNames)-1 {
